@@ -48,7 +48,7 @@ PROPERTIES = {
     "C01": {"level": "proof", "trusted_base": _TB, "assumptions": ["REPL", "REPR", "INDUCT-ATOMS", "SQL", "ENUM", "LMDBSTUB"], "extra_checks": [query_enum_check("C01")]},
     "C04": {"level": "proof", "trusted_base": _TB, "assumptions": ["EV", "ENC", "JSON", "SQL"]},
     "C03": {"level": "proof", "trusted_base": _TB, "assumptions": ["EV", "SQL", "JSON"]},
-    "C05": {"level": "proof", "trusted_base": _TB, "assumptions": ["EV", "A4"]},
+    "C05": {"level": "proof", "trusted_base": _TB, "assumptions": ["EV", "A4", "ENUM"], "extra_checks": [query_enum_check("C05")]},
     "C06": {"level": "proof", "trusted_base": _TB, "assumptions": ["EV", "SQL", "WS", "JSON", "A4"]},
     "C07": {"level": "proof", "trusted_base": _TB, "assumptions": ["EV", "SQL"]},
     "C08": {"level": "proof", "trusted_base": _TB, "assumptions": ["EV", "SQL"]},
